@@ -41,6 +41,7 @@ struct AllocCfg {
 	uint64_t allocs = 0;
 };
 extern AllocCfg g_alloc;
+extern bool g_rawMemory;
 
 void scribbleStack(unsigned char fill);          // put garbage where the next call's frames will live
 void* heapShiftAcquire(size_t bytes);            // junk allocation moving later heap addresses
